@@ -311,6 +311,84 @@ def run_one(m, tests=True, tier="quick"):
         shutil.rmtree(d, ignore_errors=True)
 
 
+# ---- re-anchored after the repairs F19-F27 changed the text around these places ----------------
+_VALUE_TAIL = """        result = exe(copy_ast(remove_empty_metadata(self._q_ast)), title)
+        # An executor "can be synchronous or coroutine": only the latter hands back something
+        # to wait for.
+        if inspect.isawaitable(result):
+            result = await result
+        return result
+"""
+
+
+def _reanchor(id, old, new):
+    for m in M:
+        if m["id"] == id:
+            m["old"], m["new"] = old, new
+            return
+    raise KeyError(id)
+
+
+_reanchor("c12-result-cache", _VALUE_TAIL, """        cache = self.__dict__.setdefault("_result_cache", {})
+        key = (id(exe), title is None)
+        if key not in cache:
+            result = exe(copy_ast(remove_empty_metadata(self._q_ast)), title)
+            if inspect.isawaitable(result):
+                result = await result
+            cache[key] = result
+        return cache[key]
+""")
+_reanchor("c12-falsy-result", _VALUE_TAIL, _VALUE_TAIL.replace(
+    "        return result\n", "        return result if result else None\n"))
+_reanchor("c12-wrap-exception", _VALUE_TAIL, """        try:
+            result = exe(copy_ast(remove_empty_metadata(self._q_ast)), title)
+            if inspect.isawaitable(result):
+                result = await result
+            return result
+        except KeyError as e:
+            raise KeyError(*e.args) from e
+""")
+_reanchor("c12-retry-on-timeout", _VALUE_TAIL, """        import asyncio
+
+        a = copy_ast(remove_empty_metadata(self._q_ast))
+        try:
+            result = exe(a, title)
+            if inspect.isawaitable(result):
+                result = await result
+            return result
+        except RuntimeError:
+            # "transient" back end error: try once more
+            await asyncio.sleep(0)
+            result = exe(a, title)
+            if inspect.isawaitable(result):
+                result = await result
+            return result
+""")
+_reanchor("c12-strip-all-metadata",
+          "        return isinstance(d, ast.Dict) and len(d.keys) == 0\n",
+          "        return isinstance(d, ast.Dict) and len(d.keys) <= 1 and not any(\n"
+          "            getattr(k, 'value', None) == 'x' for k in d.keys)\n")
+_reanchor("c16-skip-equal", "        return bool(old != new)\n",
+          "        return bool(str(old) != str(new))\n")
+_reanchor("c04-scope-leak", """        self._ignore_stack.append([x.arg for x in named])
+        v = super().generic_visit(node)
+        self._ignore_stack.pop()
+        return v
+""", """        self._ignore_stack.append([x.arg for x in named])
+        v = super().generic_visit(node)
+        return v
+""")
+_reanchor("c04-comprehension", """    visit_DictComp = _visit_comprehension
+
+    def visit_Call(self, node: ast.Call) -> Any:
+        "If the rewritten call turns into an actual function, then we have to bail,\"""",
+          """    visit_DictComp = _visit_comprehension
+    visit_ListComp = ast.NodeTransformer.generic_visit
+
+    def visit_Call(self, node: ast.Call) -> Any:
+        "If the rewritten call turns into an actual function, then we have to bail,\"""")
+
+
 def main():
     args = [a for a in sys.argv[1:] if not a.startswith("--")]
     tests = "--no-tests" not in sys.argv
